@@ -514,7 +514,7 @@ void add_vmessage (object_t * who, char *format, ...) {
  * Flush outgoing message buffer of current interactive object.
  */
 int flush_message (interactive_t * ip) {
-  int length, num_bytes;
+  int length, num_bytes, flags;
 
   /* if ip is not valid, do nothing. */
   if (!ip || (ip->iflags & (CLOSING | NET_DEAD)))
@@ -533,13 +533,29 @@ int flush_message (interactive_t * ip) {
         {
           length = MESSAGE_BUF_SIZE - ip->message_consumer;
         }
+      /* A telnet Synch is pending: ip->out_of_band counts the buffered bytes up to and
+       * including its DATA MARK. send(MSG_OOB) makes the last byte it writes the TCP
+       * urgent byte, whatever that byte is and however short the write turns out, so
+       * the bytes before the mark go out as normal data and the mark goes alone.
+       */
+      flags = 0;
+      if (ip->out_of_band > 1)
+        {
+          if (length > ip->out_of_band - 1)
+            length = ip->out_of_band - 1;
+        }
+      else if (ip->out_of_band == 1)
+        {
+          length = 1;
+          flags = MSG_OOB;
+        }
       /* Need to use send to get Out-Of-Band data
        * num_bytes = write(ip->fd,ip->message_buf + ip->message_consumer,length);
        * [NEOLITH-EXTENSION] if ip is the console user, use write to STDOUT_FILENO
        */
       num_bytes = (ip == all_users[0]) ?
         FILE_WRITE (STDOUT_FILENO, ip->message_buf + ip->message_consumer, length) :
-        SOCKET_SEND (ip->fd, ip->message_buf + ip->message_consumer, length, ip->out_of_band);
+        SOCKET_SEND (ip->fd, ip->message_buf + ip->message_consumer, length, flags);
       if (num_bytes == -1)
         {
           if (SOCKET_ERRNO == EWOULDBLOCK || SOCKET_ERRNO == EINTR)
@@ -559,7 +575,8 @@ int flush_message (interactive_t * ip) {
         }
       ip->message_consumer = (ip->message_consumer + num_bytes) % MESSAGE_BUF_SIZE;
       ip->message_length -= num_bytes;
-      ip->out_of_band = 0;
+      if (ip->out_of_band > 0)
+        ip->out_of_band -= num_bytes; /* never below 0: length is capped above */
       inet_packets++;
       inet_volume += num_bytes;
     }
@@ -846,8 +863,16 @@ static size_t copy_chars (UCHAR* from, UCHAR* to, size_t count, interactive_t* i
               break;
             case AO:		/* Abort output. Do a telnet sync operation. */
               ip->state = TS_DATA;
-              ip->out_of_band = MSG_OOB;
+              /* IAC DM is queued whole or not at all: half a Synch is of no use, and
+               * without its DATA MARK in the buffer there is nothing to send urgent. */
+              if (ip->message_length > MESSAGE_BUF_SIZE - 2)
+                flush_message (ip);
+              if (ip->message_length > MESSAGE_BUF_SIZE - 2)
+                break;
               add_message (ip->ob, telnet_abort_response);
+              if (!IP_VALID (ip, ob))
+                return 0; /* a snooper destructed the user */
+              ip->out_of_band = ip->message_length; /* the DM is the last byte queued */
               flush_message (ip);
               break;
             case SB:		/* start subnegotiation */
